@@ -6,11 +6,74 @@ import PyFatModel.Model.DosTime
 import PyFatModel.Model.FatTable
 import PyFatModel.Model.Sfn
 import PyFatModel.Model.Layout
+import PyFatModel.Model.Alloc
+import PyFatModel.Model.Geom
+import PyFatModel.Model.Dir
+import PyFatModel.Model.DirBytes
+import PyFatModel.Model.Names
 
 open Model Model.Hex
 
+structure CpInfo where
+  dec : Array Nat
+  spaces : List Nat
+  upper : List (Nat × List Nat)      -- code points whose upper() differs
+
 structure DState where
   cps : List (String × Sfn.CodePage) := []
+  cpi : List (String × CpInfo) := []
+
+/-- "c:u.u;c:u" → association list -/
+def parseMap (s : String) : Option (List (Nat × List Nat)) :=
+  if s == "-" then some [] else
+  (s.splitOn ";").mapM fun kv =>
+    match kv.splitOn ":" with
+    | [k, v] => match k.toNat?, (if v == "" then some [] else (v.splitOn ".").mapM String.toNat?) with
+      | some k, some v => some (k, v)
+      | _, _ => none
+    | _ => none
+
+def mkEnv (ci : CpInfo) (extraUpper : List (Nat × List Nat)) (extraSpaces : List Nat) (encMap : List (Nat × List Nat)) :
+    Names.CharEnv :=
+  let up := extraUpper ++ ci.upper
+  { upper := fun s => s.flatMap (fun c => (up.lookup c).getD [c]),
+    isSpace := fun c => ci.spaces.contains c || extraSpaces.contains c,
+    enc := fun c => match encMap.lookup c with
+      | some [b] => some b
+      | _ => none,
+    dec := fun b => ci.dec.getD b 65533 }
+
+def kv (args : List String) (k : String) : Option String :=
+  args.findSome? fun a => if a.startsWith (k ++ "=") then some (a.drop (k.length + 1)).toString else none
+
+def names (st : DState) (args : List String) : String :=
+  match args with
+  | "newname" :: rest =>
+    match kv rest "cp", kv rest "pc", kv rest "name", kv rest "up", kv rest "sp", kv rest "enc", kv rest "ex" with
+    | some cp, some pc, some name, some up, some sp, some enc, some ex =>
+      match st.cpi.lookup cp, parseNatList name, parseMap up, parseNatList sp, parseMap enc,
+            (if ex == "-" then some [] else (ex.splitOn "|").mapM parseNatList) with
+      | some ci, some name, some up, some sp, some enc, some ex =>
+        let e := mkEnv ci up sp enc
+        match Names.newName e (pc == "1") name ex with
+        | .ok r => "ok " ++ toHex r.short11 ++ " " ++ (match r.lfn with | some u => "L" ++ showNatList u | none => "-")
+        | .error .exhausted => "err PyFAT:17"
+        | .error .nonconform => "err PyFAT:22"
+        | .error .lfnOnConform => "err PyFAT:22"
+        | .error .tooLong => "err PyFAT:36"
+        | .error .unencodable => "err UnicodeEncodeError"
+      | _, _, _, _, _, _ => "bad-op"
+    | _, _, _, _, _, _, _ => "bad-op"
+  | "conform" :: rest =>
+    match kv rest "cp", kv rest "name", kv rest "up", kv rest "sp", kv rest "enc" with
+    | some cp, some name, some up, some sp, some enc =>
+      match st.cpi.lookup cp, parseNatList name, parseMap up, parseNatList sp, parseMap enc with
+      | some ci, some name, some up, some sp, some enc =>
+        let e := mkEnv ci up sp enc
+        "ok " ++ toString (Names.conform e name) ++ " " ++ showNatList (Names.splitext name).1 ++ " " ++ showNatList (Names.splitext name).2
+      | _, _, _, _, _ => "bad-op"
+    | _, _, _, _, _ => "bad-op"
+  | _ => "bad-op"
 
 def layoutByName (n : String) : Option (List Gen.Field × Nat) :=
   match n with
@@ -156,18 +219,119 @@ def codec (st : DState) (args : List String) : DState × String :=
     | _, _ => (st, "bad-op")
   | _ => (st, "bad-op")
 
-def defCp (st : DState) (name decs spaces : String) : DState × String :=
-  match parseNatList decs, parseNatList spaces with
-  | some d, some sp =>
+def fnv (xs : List Nat) : Nat :=
+  xs.foldl (fun h x => ((h ^^^ x) * 1099511628211) % 18446744073709551616) 14695981039346656037
+
+def showWalk : Alloc.Walk → String
+  | .ok c => "ok " ++ showNatList c
+  | .indexError c => "err IndexError " ++ showNatList c
+  | .silentStop c => "ok " ++ showNatList c
+  | .bad c => "err PyFAT:- " ++ showNatList c
+  | .free c => "err PyFAT:- " ++ showNatList c
+  | .invalid c => "err PyFAT:- " ++ showNatList c
+  | .hang c => "hang " ++ showNatList (c.take 8)
+
+def showSlotEnt (e : Dir.Ent) : String :=
+  let long := match e.lfn with
+    | none => "-"
+    | some ls =>
+      let u := Dir.decodeLfn ls
+      if DirBytes.utf16Valid ((ls.flatMap (·.units)).reverse.dropWhile (· == 65535)).reverse then "L" ++ showNatList u else "U"
+  toHex e.short.name ++ ":" ++ toString e.short.attr ++ ":" ++ long
+
+def volume (args : List String) : String :=
+  match args with
+  | ["alloc", ty, hint, n, t16, t32, fds, spc, fat] =>
+    match ty.toNat?, hint.toNat?, n.toNat?, t16.toInt?, t32.toInt?, fds.toInt?, spc.toInt?, parseNatList fat with
+    | some ty, some hint, some n, some t16, some t32, some fds, some spc, some fat =>
+      let count := Gen.Arith.get_cluster_count (BPB_TotSec16 := t16) (BPB_TotSec32 := t32) (first_data_sector := fds) (BPB_SecPerClus := spc)
+      let bound := min fat.length (count + 2).toNat
+      match Alloc.allocate (Alloc.params ty) fat hint bound n with
+      | none => "err PyFAT:28"
+      | some r => s!"ok {showNatList r.clusters} {r.hint} {fnv r.fat}"
+    | _, _, _, _, _, _, _, _ => "bad-op"
+  | ["chain", ty, start, fat] =>
+    match ty.toNat?, start.toNat?, parseNatList fat with
+    | some ty, some start, some fat => showWalk (Alloc.chainOf (Alloc.params ty) fat start)
+    | _, _, _ => "bad-op"
+  | ["free", ty, start, hint, fat] =>
+    match ty.toNat?, start.toNat?, hint.toNat?, parseNatList fat with
+    | some ty, some start, some hint, some fat =>
+      let p := Alloc.params ty
+      match Alloc.chainOf p fat start with
+      | .ok cs => s!"ok {fnv (Alloc.freeList p.cv.free fat cs)} {Alloc.lowerHint hint cs}"
+      | .silentStop cs => s!"ok {fnv (Alloc.freeList p.cv.free fat cs)} {Alloc.lowerHint hint cs}"
+      | w => showWalk w
+    | _, _, _, _ => "bad-op"
+  | ["cluster_address", c, spc, fds, bps] =>
+    match c.toInt?, spc.toInt?, fds.toInt?, bps.toInt? with
+    | some c, some spc, some fds, some bps =>
+      s!"ok {Gen.Arith.get_data_cluster_address (cluster := c) (BPB_SecPerClus := spc) (first_data_sector := fds) (BPB_BytsPerSec := bps)}"
+    | _, _, _, _ => "bad-op"
+  | ["num_clusters", size, bpc] =>
+    match size.toInt?, bpc.toInt? with
+    | some size, some bpc => s!"ok {Gen.Arith.calc_num_clusters (size := size) (bytes_per_cluster := bpc)}"
+    | _, _ => "bad-op"
+  | ["header", t16, t32, rsvd, nfats, rootent, bps, spc, f16, f32] =>
+    match t16.toNat?, t32.toNat?, rsvd.toNat?, nfats.toNat?, rootent.toNat?, bps.toNat?, spc.toNat?, f16.toNat?, f32.toNat? with
+    | some t16, some t32, some rsvd, some nfats, some rootent, some bps, some spc, some f16, some f32 =>
+      let fsz : Int := if f16 ≠ 0 then f16 else f32
+      let rds := Gen.Arith.parse_header_root_dir_sectors (BPB_RootEntCnt := rootent) (BPB_BytsPerSec := bps)
+      let rd := Gen.Arith.parse_header_root_dir_sector (BPB_RsvdSecCnt := rsvd) (BPB_NumFATs := nfats) (fat_size := fsz)
+      let fds := Gen.Arith.parse_header_first_data_sector (BPB_RootEntCnt := rootent) (BPB_BytsPerSec := bps)
+        (BPB_RsvdSecCnt := rsvd) (BPB_NumFATs := nfats) (fat_size := fsz)
+      let ty := Gen.Arith.determine_fat_type (BPB_TotSec16 := t16) (BPB_TotSec32 := t32) (BPB_RsvdSecCnt := rsvd)
+        (BPB_NumFATs := nfats) (fat_size := fsz) (root_dir_sectors := rds) (BPB_SecPerClus := spc)
+        (BPB_FATSz16 := f16) (BPB_FATSz32 := f32)
+      let b : Geom.Bpb := { bps := bps, spc := spc, rsvd := rsvd, nfats := nfats, rootEnt := rootent,
+                            totSec16 := t16, totSec32 := t32, fatSz16 := f16, fatSz32 := f32 }
+      s!"ok {ty} {rds} {rd} {fds} spec {b.fatType} {b.rootDirSectors} {b.rootDirSector} {b.firstDataSector}"
+    | _, _, _, _, _, _, _, _, _ => "bad-op"
+  | ["access", t16, t32, rsvd, nfats, rootent, bps, spc, f16, f32, bk, off, len] =>
+    match t16.toNat?, t32.toNat?, rsvd.toNat?, nfats.toNat?, rootent.toNat?, bps.toNat?, spc.toNat?, f16.toNat?, f32.toNat?,
+          bk.toNat?, off.toNat?, len.toNat? with
+    | some t16, some t32, some rsvd, some nfats, some rootent, some bps, some spc, some f16, some f32, some bk, some off, some len =>
+      let b : Geom.Bpb := { bps := bps, spc := spc, rsvd := rsvd, nfats := nfats, rootEnt := rootent,
+                            totSec16 := t16, totSec32 := t32, fatSz16 := f16, fatSz32 := f32, bkBoot := bk }
+      match Geom.classifyAccess b off len with
+      | some .bootSector => "ok boot"
+      | some .backupBoot => "ok backup"
+      | some (.fat i) => s!"ok fat{i}"
+      | some .root => "ok root"
+      | some (.cluster c) => s!"ok cluster{c}"
+      | none => "ok none"
+    | _, _, _, _, _, _, _, _, _, _, _, _ => "bad-op"
+  | ["lfn_make", units, cks] =>
+    match parseNatList units, cks.toNat? with
+    | some u, some c =>
+      let ls := Dir.makeLfn u c
+      "ok " ++ toHex ((ls.reverse.flatMap DirBytes.encodeLfn)) ++ " " ++ showNatList (Dir.decodeLfn ls)
+    | _, _ => "bad-op"
+  | ["dirscan", hx] =>
+    match parseHex hx with
+    | some bs =>
+      match Dir.scan Sfn.checksum [] (DirBytes.decodeDir bs) with
+      | .ok es => "ok " ++ (if es.isEmpty then "-" else " ".intercalate (es.map showSlotEnt))
+      | .error .lfnCluster => "err PyFAT:14"
+      | .error .lfnDuplicate => "err PyFAT:-"
+    | none => "bad-op"
+  | _ => "bad-op"
+
+def defCp (st : DState) (name decs spaces : String) (upper : String := "-") : DState × String :=
+  match parseNatList decs, parseNatList spaces, parseMap upper with
+  | some d, some sp, some up =>
     let da := d.toArray
     let cp : Sfn.CodePage := { dec := fun b => da.getD b 65533, isSpace := fun c => sp.contains c }
-    ({ st with cps := (name, cp) :: st.cps }, "ok")
-  | _, _ => (st, "bad-op")
+    ({ st with cps := (name, cp) :: st.cps, cpi := (name, { dec := da, spaces := sp, upper := up }) :: st.cpi }, "ok")
+  | _, _, _ => (st, "bad-op")
 
 def step (st : DState) (line : String) : DState × String :=
   match (line.trimAscii.toString.splitOn " ").filter (· ≠ "") with
   | "codec" :: args => codec st args
+  | "vol" :: args => (st, volume args)
   | ["cp", name, decs, spaces] => defCp st name decs spaces
+  | ["cp", name, decs, spaces, upper] => defCp st name decs spaces upper
+  | "name" :: args => (st, names st args)
   | ["ping"] => (st, "ok pong")
   | [] => (st, "")
   | _ => (st, "bad-op")
